@@ -14,7 +14,8 @@
 //! are legal, detailed balance where the move is reversible, and K_step = K_diag * K_cluster ...
 //! for the composed `timestep`.
 //!
-//! Modes: ising | heatbath | generic | rvb   (CASE lines: `kern <mode> <system> <kernel> | ok | <oracle>`).
+//! Modes: ising | heatbath | generic | rvb   (CASE lines: `kern <mode> <system> <kernel> | ok | <oracle>`);
+//! `witness-loop-arity` (fixed input of the mixed-arity loop finding, ~3 min), `mcprobe` (debugging aid).
 //! See /verif/design_notes/KernOracle.md.
 
 use qmc::sse::fast_ops::*;
@@ -1258,7 +1259,8 @@ fn measure(sys: &dyn Sys, intern: &mut Interner, max_cfgs: usize, mc: u64, seed:
         for (k, spec) in ks.iter().enumerate() {
             let mut ex = Ex { sys, cfg: cfg.clone(), k, intern, cache: &mut cache, ct: &mut ct, eps: spec.eps, trunc: 0.0, maxdepth: if spec.eps > 0.0 { 400 } else { 96 }, budget: 20_000, memo: HashMap::new(), validated: Default::default(), hints: HashMap::new(), nomerge: Default::default(), row_nodes: 0, row_limit: u64::MAX };
             // truncated kernels (loops): refine the truncation threshold as far as a node budget allows
-            let sched: Vec<f64> = if spec.eps > 0.0 { [1e-3, 1e-5, 1e-7, 1e-9, 1e-11].iter().cloned().filter(|e| *e >= spec.eps).collect() } else { vec![0.0] };
+            let mut sched: Vec<f64> = if spec.eps > 0.0 { [1e-3, 1e-5, 1e-7, 1e-9, 1e-11].iter().cloned().filter(|e| *e > spec.eps).collect() } else { vec![] };
+            sched.push(spec.eps);
             let mut best: Option<Rc<Tree>> = None;
             for e in sched {
                 ex.eps = e;
@@ -1670,7 +1672,9 @@ fn generic_systems(thorough: bool) -> Vec<GenSys> {
 }
 
 fn main() {
-    quiet_panics();
+    if std::env::var("KERN_LOUD").is_err() {
+        quiet_panics();
+    }
     let a = args();
     let only = std::env::var("KERN_ONLY").ok();
     let mut tally = Tally { cases: 0, abstained: 0, abst_msgs: vec![] };
@@ -1696,6 +1700,67 @@ fn main() {
             for s in generic_systems(a.thorough) {
                 if keep(&s.describe()) {
                     run_system(&mode, &s, &a, &mut tally);
+                }
+            }
+        }
+        // fixed input of the mixed-arity loop finding (exchange bond + single-site diagonal term, L = 2): the loop kernel
+        // measured with truncation 1e-5; the truncated inflow is a rigorous lower bound and already exceeds pi
+        "witness-loop-arity" => {
+            let mut s = generic_systems(false).pop().unwrap();
+            for k in s.kern.iter_mut() {
+                if k.name == "loop" {
+                    k.eps = 1e-5;
+                }
+            }
+            run_system("generic", &s, &a, &mut tally);
+        }
+        // debugging aid (not part of any check): Monte-Carlo estimate of the inflow for one kernel of one generic system
+        "mcprobe" => {
+            let kname = std::env::var("KERN_KERNEL").unwrap_or("loop".into());
+            let nsamp: u64 = std::env::var("KERN_N").ok().and_then(|s| s.parse().ok()).unwrap_or(200_000);
+            for s in generic_systems(a.thorough) {
+                if !keep(&s.describe()) {
+                    continue;
+                }
+                let sys: &dyn Sys = &s;
+                let mut coarse = s.clone();
+                for k in coarse.kern.iter_mut() {
+                    if k.eps > 0.0 {
+                        k.eps = 1e-2;
+                    }
+                }
+                let mut intern = Interner::default();
+                let m = measure(&coarse, &mut intern, 20000, 4, a.seed).unwrap();
+                let k = s.kern.iter().position(|x| x.name == kname).unwrap();
+                let pos: HashMap<u32, usize> = m.ids.iter().enumerate().map(|(i, id)| (*id, i)).collect();
+                let pi: Vec<f64> = m.ids.iter().map(|id| weight(sys, &intern.cfgs[*id as usize])).collect();
+                let n = m.ids.len();
+                let mut inflow = vec![0.0f64; n];
+                let mut var = vec![0.0f64; n];
+                for i in 0..n {
+                    let cfg = intern.cfgs[m.ids[i] as usize].clone();
+                    let mut counts: HashMap<u32, u64> = HashMap::new();
+                    for t in 0..nsamp {
+                        tl_reset(&[], a.seed.wrapping_mul(7919).wrapping_add(i as u64 * 1_000_003 + t), 1 << 20);
+                        let c = sys.run(&cfg, k);
+                        let _ = qmc::util::allocator::verif_log::take();
+                        *counts.entry(intern.id(c)).or_insert(0) += 1;
+                    }
+                    for (o, cnt) in counts {
+                        let p = cnt as f64 / nsamp as f64;
+                        match pos.get(&o) {
+                            Some(j) => {
+                                inflow[*j] += pi[i] * p;
+                                var[*j] += pi[i] * pi[i] * p * (1.0 - p) / nsamp as f64;
+                            }
+                            None => println!("successor outside the closed set: {} -> {}", cfg.show(), intern.cfgs[o as usize].show()),
+                        }
+                    }
+                }
+                for j in 0..n {
+                    let sd = var[j].sqrt();
+                    let z = (inflow[j] - pi[j]) / sd.max(1e-300);
+                    println!("{:>8.3} sigma  inflow {:.6e} pi {:.6e} sd {:.2e}  {}", z, inflow[j], pi[j], sd, intern.cfgs[m.ids[j] as usize].show());
                 }
             }
         }
